@@ -33,8 +33,9 @@ func Repo() string {
 }
 
 type Scratch struct {
-	Dir string
-	Mod string // Dir/mod
+	Dir   string
+	Mod   string // Dir/mod
+	Cache string // Dir/gocache: the Go build cache of this run (removed with the scratch directory)
 }
 
 func New(prefix string) (*Scratch, error) {
@@ -46,8 +47,37 @@ func New(prefix string) (*Scratch, error) {
 	if err != nil {
 		return nil, err
 	}
-	s := &Scratch{Dir: d, Mod: filepath.Join(d, "mod")}
+	s := &Scratch{Dir: d, Mod: filepath.Join(d, "mod"), Cache: filepath.Join(d, "gocache")}
+	s.seedCache()
 	return s, os.MkdirAll(s.Mod, 0o755)
+}
+
+// seedCache gives the run a Go build cache of its own. A check compiles thousands of generated packages; in the
+// user's shared cache they would pile up for days (it grew by tens of gigabytes per day of development). The
+// private cache starts as a hard-linked copy of the base cache setup.sh builds (standard library and the
+// dependencies of generated code, compiled once), so nothing but the run's own packages is compiled or stored,
+// and all of it goes away with the scratch directory.
+func (s *Scratch) seedCache() {
+	if os.Getenv("VERIF_SHARED_GOCACHE") != "" {
+		s.Cache = ""
+		return
+	}
+	home := os.Getenv("VERIF_HOME")
+	if home == "" {
+		home = "/verif"
+	}
+	base := filepath.Join(home, "bin", "gocache-base")
+	if st, err := os.Stat(base); err == nil && st.IsDir() {
+		if err := exec.Command("cp", "-al", base, s.Cache).Run(); err == nil {
+			return
+		}
+		_ = os.RemoveAll(s.Cache)
+		if err := exec.Command("cp", "-a", base, s.Cache).Run(); err == nil {
+			return
+		}
+		_ = os.RemoveAll(s.Cache)
+	}
+	_ = os.MkdirAll(s.Cache, 0o755)
 }
 
 func (s *Scratch) Close() {
@@ -58,9 +88,12 @@ func (s *Scratch) Close() {
 	_ = os.RemoveAll(s.Dir)
 }
 
-func goEnv() []string {
-	env := os.Environ()
-	return append(env, "GOFLAGS=-mod=mod", "GOPROXY=off", "GOSUMDB=off", "GOTOOLCHAIN=local", "GOWORK=off")
+func (s *Scratch) goEnv() []string {
+	env := append(os.Environ(), "GOFLAGS=-mod=mod", "GOPROXY=off", "GOSUMDB=off", "GOTOOLCHAIN=local", "GOWORK=off")
+	if s.Cache != "" {
+		env = append(env, "GOCACHE="+s.Cache)
+	}
+	return env
 }
 
 func (s *Scratch) goCmd(timeout time.Duration, args ...string) ([]byte, error) {
@@ -68,7 +101,7 @@ func (s *Scratch) goCmd(timeout time.Duration, args ...string) ([]byte, error) {
 	defer cancel()
 	cmd := exec.CommandContext(ctx, "go", args...)
 	cmd.Dir = s.Mod
-	cmd.Env = goEnv()
+	cmd.Env = s.goEnv()
 	out, err := cmd.CombinedOutput()
 	if ctx.Err() != nil {
 		return out, fmt.Errorf("go %s: timeout", strings.Join(args, " "))
@@ -132,6 +165,9 @@ func (s *Scratch) BuildCLI() (string, error) {
 	cmd.Dir = Repo()
 	env := os.Environ()
 	cmd.Env = append(env, "GOPROXY=off", "GOSUMDB=off", "GOTOOLCHAIN=local")
+	if s.Cache != "" {
+		cmd.Env = append(cmd.Env, "GOCACHE="+s.Cache)
+	}
 	out, err := cmd.CombinedOutput()
 	if err != nil {
 		return "", fmt.Errorf("building CLI from %s failed: %v\n%s", Repo(), err, out)
@@ -524,4 +560,72 @@ func (s *Scratch) Run(bin string, jobs []RunJob) (map[string]*RunOut, error) {
 	}
 	err := rec(jobs, 30*time.Minute)
 	return res, err
+}
+
+// WarmBase builds the base Go build cache at dir (see seedCache): the generator driver, the CLI, the runner's
+// and the generated code's dependencies are compiled once with GOCACHE=dir.
+func WarmBase(dir string) error {
+	_ = os.RemoveAll(dir)
+	if err := os.MkdirAll(dir, 0o755); err != nil {
+		return err
+	}
+	base := os.Getenv("TMPDIR")
+	if base == "" {
+		base = "/tmp"
+	}
+	d, err := os.MkdirTemp(base, "vcheck-warm-")
+	if err != nil {
+		return err
+	}
+	defer os.RemoveAll(d)
+	s := &Scratch{Dir: d, Mod: filepath.Join(d, "mod"), Cache: dir}
+	if err := os.MkdirAll(s.Mod, 0o755); err != nil {
+		return err
+	}
+	if err := s.InitModule(); err != nil {
+		return err
+	}
+	if _, err := s.BuildCLI(); err != nil {
+		return err
+	}
+	warm := `package main
+
+import (
+	_ "bufio"
+	_ "bytes"
+	_ "encoding"
+	_ "encoding/json"
+	_ "errors"
+	_ "fmt"
+	_ "math"
+	_ "net/netip"
+	_ "os"
+	_ "reflect"
+	_ "regexp"
+	_ "runtime/debug"
+	_ "strings"
+	_ "sync"
+	_ "time"
+
+	_ "github.com/atombender/go-jsonschema/pkg/types"
+	_ "github.com/go-viper/mapstructure/v2"
+	_ "gopkg.in/yaml.v3"
+)
+
+func main() {}
+`
+	if err := os.MkdirAll(filepath.Join(s.Mod, "warm"), 0o755); err != nil {
+		return err
+	}
+	if err := os.WriteFile(filepath.Join(s.Mod, "warm", "main.go"), []byte(warm), 0o644); err != nil {
+		return err
+	}
+	if out, err := s.goCmd(10*time.Minute, "build", "-o", filepath.Join(s.Dir, "warm.bin"), "./warm"); err != nil {
+		return fmt.Errorf("warming the build cache failed: %v\n%s", err, out)
+	}
+	// the flags the checks compile generated packages with (-gcflags=-e) key the cache differently
+	if out, err := s.goCmd(10*time.Minute, "build", "-gcflags=-e", "-o", filepath.Join(s.Dir, "warm2.bin"), "./warm"); err != nil {
+		return fmt.Errorf("warming the build cache failed: %v\n%s", err, out)
+	}
+	return nil
 }
